@@ -34,12 +34,14 @@ LEVEL_TEXT = ("Exploration: thousands of generated solutions per run on 10 datab
               "reaction steps are sampled.")
 FLOORS = {"quick": 300, "thorough": 3000}
 SHARDS = {"quick": 8, "thorough": 16}
-BUDGET = {"quick": 800, "thorough": 2400, "replay": 1}
+BUDGET = {"quick": 800, "thorough": 4000, "replay": 1}
 
 # database -> sampling weight
 DATABASES = [("phreeqc.dat", 5), ("wateq4f.dat", 3), ("minteq.v4.dat", 2), ("minteq.dat", 2), ("Amm.dat", 2), ("llnl.dat", 2),
              ("core10.dat", 2), ("Tipping_Hurley.dat", 1), ("phreeqc_rates.dat", 1), ("iso.dat", 1)]
-SWEEP_DATABASES = [d for d, _ in DATABASES] + ["Kinec_v3.dat"]
+# thorough tier only (Pitzer / SIT files: the mass-action, balance and read-out clauses do not depend on the activity model)
+THOROUGH_EXTRA = [("PHREEQC_ThermoddemV1.10_15Dec2020.dat", 2), ("Kinec_v3.dat", 1), ("sit.dat", 1), ("pitzer.dat", 1)]
+SWEEP_DATABASES = [d for d, _ in DATABASES] + [d for d, _ in THOROUGH_EXTRA] + ["Kinec.v2.dat", "frezchem.dat", "ColdChem.dat"]
 MAX_SPECIES = 400
 MAX_PHASES = 40
 ABSENT = -99.99
@@ -415,8 +417,8 @@ def _weighable(inf, formula, base):
 
 
 @st.composite
-def case_st(draw):
-    names = [d for d, w in DATABASES for _ in range(w)]
+def case_st(draw, databases=None):
+    names = [d for d, w in (databases or DATABASES) for _ in range(w)]
     dbn = draw(st.sampled_from(names))
     inf = info(dbn)
     sol1 = draw(solution_st(inf, 1))
@@ -904,32 +906,40 @@ def sweep_cases(dbn):
         for temp, pH, pe in ((25.0, 7.0, 4.0), (61.5, 4.5, 8.0)):
             sol = {"number": 1, "temp": temp, "pH": pH, "pe": pe, "units": "mol/kgw",
                    "comps": [{"el": e, "value": 1e-4} for e in sorted(g)]}
-            cases.append({"db": dbn, "sols": [sol], "react": [], "pseed": k, "kind": "sweep"})
+            # isotope databases: the minor-isotope species only exist after a reaction step (the initial solution is
+            # speciated without them), so the sweep adds a REACTION_TEMPERATURE step at the same temperature
+            react = [{"kind": "temp", "temp": temp}] if inf.db.isotopes else []
+            cases.append({"db": dbn, "sols": [sol], "react": react, "pseed": k, "kind": "sweep"})
     return cases
 
 
 def run(ctx):
-    ctx.hyp(case_st(), lambda c: check_case(c, ctx), BUDGET[ctx.tier], "solutions")
+    dbs = DATABASES + THOROUGH_EXTRA if ctx.tier == "thorough" else DATABASES
+    ctx.hyp(case_st(dbs), lambda c: check_case(c, ctx), BUDGET[ctx.tier], "solutions")
     if ctx.tier == "thorough":
-        n = 0
-        for dbn in SWEEP_DATABASES:
+        # deterministic species sweep: one database per shard (so that the per-database coverage count is exact)
+        for i, dbn in enumerate(SWEEP_DATABASES):
+            if i % ctx.nshards != ctx.shard:
+                continue
             try:
                 cases = sweep_cases(dbn)
             except Exception as e:
                 ctx.notes.append("sweep of %s not possible: %s" % (dbn, e))
                 continue
+            seen = set()
             for case in cases:
-                n += 1
-                if n % ctx.nshards != ctx.shard:
-                    continue
                 ctx.begin(case)
+                ctx.extra.pop("sweep_seen:" + dbn, None)
                 try:
                     r = check_case(case, ctx)
                     ctx.record(case, r["nontrivial"], r["classes"] + ["sweep"])
+                    seen |= set(ctx.extra.get("sweep_seen:" + dbn, []))
                 except Discard as d:
                     ctx.discards["sweep:" + d.why] += 1
                 except Violation as v:
                     ctx.failures.append({"case": case, "oracle": v.oracle, "message": v.msg[:4000], "test": "sweep"})
-            if ctx.shard == 0:
-                inf = info(dbn)
-                ctx.extra["parsed_species:" + dbn] = len(inf.db.species)
+            ctx.extra.pop("sweep_seen:" + dbn, None)
+            inf = info(dbn)
+            ctx.extra["sweep:%s:species_parsed" % dbn] = len(inf.db.species)
+            ctx.extra["sweep:%s:species_with_equation_evaluated_or_master_present" % dbn] = len(seen)
+            ctx.extra["sweep:%s:cases" % dbn] = len(cases)
